@@ -110,8 +110,11 @@ def main():
             if m is not None:
                 out['excluded_known'][m['id']] = out['excluded_known'].get(m['id'], 0) + 1
                 return
+            # drop the frames: they would keep the case's objects (proxies, servers...) alive and change later cases
+            v.__traceback__ = None
+            v.__context__ = None
             state['last_fail'] = (params, v)
-            raise
+            raise v from None
         if counting:
             account(info, params)
 
